@@ -58,7 +58,14 @@ where
 
     /// For a univariate polynomial, we simply return the list of coefficients.
     fn poly_to_vec(polynomial: &P) -> Vec<F> {
-        polynomial.coeffs().to_vec()
+        let coeffs = polynomial.coeffs();
+        if coeffs.is_empty() {
+            // The zero polynomial has no coefficients; commit to it as the
+            // constant polynomial 0 so that the coefficient matrix is non-empty.
+            vec![F::zero()]
+        } else {
+            coeffs.to_vec()
+        }
     }
 
     fn point_to_vec(point: P::Point) -> Vec<F> {
